@@ -377,6 +377,12 @@ class Serializer:
     def _serialize_measurement_gate(
         self, gate: cirq.MeasurementGate, targets: Sequence[int]
     ) -> dict:
+        if any(gate.full_invert_mask()) or gate.confusion_map:
+            # Only the key and the targets travel with the job; the results come back as measured.
+            raise ValueError(
+                'Measurement gates for IonQ API cannot have an invert mask or a confusion map. '
+                f'Gate was {gate!r}'
+            )
         key = cirq.measurement_key_name(gate)
         if chr(31) in key or chr(30) in key:
             raise ValueError(
